@@ -89,6 +89,12 @@ inductive Prim where
   | posJacobiAll                 -- jacobi_to_inertial_pos   (saba.c)
   | jacAccAll                    -- inertial_to_jacobi_acc   (saba.c)
   | toInertialAll                -- jacobi_to_inertial_posvel (saba.c synchronize)
+  -- first-order variational particles (whfast.c:1003-1016, 1072-1075, 1197-1268); they are part of
+  -- the replay (`vStepOps`), not of the denotation used by the theorems
+  | varComDrift (τ : Coef)       -- p_jh[vc.index].pos += τ * p_jh[vc.index].vel, every variational config
+  | varToInertialPos             -- jacobi_to_inertial_pos of every variational config
+  | varToInertialPosvel          -- jacobi_to_inertial_posvel of every variational config
+  | rescaleVar                   -- reb_simulation_rescale_var (rebound.c:152-154)
   | sabaFold                     -- particles[i].a := dt*dt * p_jh[i].a          (saba.c:140-145)
   | sabaLazyKick (τ : Coef)      -- p_jh[i].v += τ*12*(p_jh[i].a - p_temp[i].a); pos reset (saba.c:180-190)
   deriving DecidableEq, Repr, Inhabited
@@ -104,6 +110,8 @@ def Prim.toString : Prim → String
   | .savePJ => "save" | .restorePJ => "restore"
   | .advT τ => "T=" ++ τ.toString
   | .sabaFold => "sabaFold" | .sabaLazyKick τ => "sabaLazyKick=" ++ τ.toString
+  | .varComDrift τ => "vC=" ++ τ.toString | .varToInertialPos => "vPos" | .varToInertialPosvel => "vPosvel"
+  | .rescaleVar => "vRescale"
   | .sabaInit b => if b then "sabaInit=1" else "sabaInit=0"
   | .posJacobiAll => "posJA" | .jacAccAll => "jacAccA" | .toInertialAll => "toIA"
 
@@ -263,6 +271,46 @@ def stepOps (c : Config) (f : Flags) : List Prim × Flags :=
   let (p1, f1) := part1Ops c f
   let (p2, f2) := part2Ops c f1
   (p1 ++ [.updateAcc] ++ p2, f2)
+
+/-! ## WHFast with first-order variational particles (Jacobi coordinates, default kernel, no
+    correctors; `calculate_megno = 0`).  Mirrors the `N_var_config` blocks of part1, synchronize
+    and part2.  Replay only — note that part2 synchronises (for real) at the end of *every* step
+    when there are variational particles and keep_unsynchronized = 0, whatever safe_mode says. -/
+
+def vSyncOps (c : Config) (f : Flags) : List Prim × Flags :=
+  let f1 := initF f
+  if f1.isSync then ([.init], f1) else
+  (.init :: ((if c.keep then [Prim.savePJ] else []) ++
+    [.kepler (.frac 1 2), .com (.frac 1 2), .toInertial, .varToInertialPosvel] ++
+    (if c.keep then [Prim.restorePJ] else [])),
+   if c.keep then f1 else { f1 with isSync := true })
+
+def vPart1Ops (c : Config) (f : Flags) : List Prim × Flags :=
+  let f1 := initF f
+  let (p2, f2) :=
+    if c.safe || f1.recalc then
+      let (ps, fs) := if !f1.isSync then ((vSyncOps c f1).1 ++ [Prim.warn], (vSyncOps c f1).2) else ([], f1)
+      (ps ++ [Prim.fromInertial], { fs with recalc := false })
+    else ([], f1)
+  let drift := if f2.isSync then [Prim.kepler (.frac 1 2), .com (.frac 1 2)]
+               else [.kepler (.frac 1 1), .com (.frac 1 1)]
+  (.init :: p2 ++ drift ++ [.jump (.frac 1 2), .toInertial, .varComDrift (.frac 1 2), .varToInertialPos,
+    .advT (.frac 1 2)], f2)
+
+def vPart2Ops (c : Config) (f : Flags) : List Prim × Flags :=
+  let f1 := { f with isSync := false }
+  let (ps, f2) := if c.safe then vSyncOps c f1 else ([], f1)
+  -- the N_var_config block (whfast.c:1197-1268): synchronize with keep_unsynchronized switched off
+  let (pv, f3) := vSyncOps { c with keep := false } f2
+  let blk := (if c.keep then [Prim.savePJ] else []) ++ pv ++
+    [.varComDrift (.frac 1 2), .varToInertialPosvel] ++ (if c.keep then [Prim.restorePJ] else [])
+  ([.interaction (.frac 1 1), .jump (.frac 1 2)] ++ ps ++ [.advT (.frac 1 2)] ++ blk,
+   if c.keep then { f3 with isSync := false } else f3)
+
+def vStepOps (c : Config) (f : Flags) : List Prim × Flags :=
+  let (p1, f1) := vPart1Ops c f
+  let (p2, f2) := vPart2Ops c f1
+  (p1 ++ [.updateAcc] ++ p2 ++ [.rescaleVar], f2)
 
 /-! ## SABA (integrator_saba.c) -/
 
@@ -468,6 +516,13 @@ def eStepOps (safe isSync : Bool) : List EPrim × Bool :=
   let (ps, f) := if safe then eSyncOps false else ([], false)
   (head ++ [.body] ++ ps, f)
 
+def vOpOps {X} (c : Config) (f : Flags) : Op X → List Prim × Flags
+  | .step => vStepOps c f
+  | .synchronize => vSyncOps c f
+  | .read => ([], f)
+  | .setRecalc => ([], { f with recalc := true })
+  | .poke _ => ([], f)
+
 def sabaOpOps {X} (c : SabaConfig) (f : Flags) : Op X → List Prim × Flags
   | .step => sabaStepOps c f
   | .synchronize => sabaSyncOps c f
@@ -505,28 +560,45 @@ def apiOps {X} (c : Config) (f : Flags) (o : Op X) : Except String (List Prim ×
 
 inductive DtOp where
   | api (o : Op Unit)
+  /-- synchronize that ignores `keep_unsynchronized` (repaired source only:
+      `reb_simulation_synchronize_before_dt_change`, fixes/C09-exact-finish-keep-unsynchronized.diff) -/
+  | forceSync
   | begin          -- last_full_dt := dt ; dt_last_done := 0
   | flipDt | setDtLast | restoreDt
   deriving Repr
 
-def lastStepBlock : Nat → List DtOp
-  | 0 => []
-  | k + 1 => [.api .synchronize, .setDtLast, .api .step] ++ lastStepBlock k
+/-- the synchronize that precedes an assignment to `dt` -/
+def syncBeforeDt (force : Bool) : DtOp := if force then .forceSync else .api .synchronize
 
-def integratePlan (n k : Nat) (exact reverse syncFirst : Bool) : List DtOp :=
-  (if reverse then (if syncFirst then [DtOp.api .synchronize, .flipDt] else [.flipDt]) else []) ++
-  [.begin] ++ (List.replicate n (DtOp.api .step)) ++ lastStepBlock k ++ [.api .synchronize] ++
-  (if exact then [.restoreDt] else [])
+def lastStepBlock (force : Bool) : Nat → List DtOp
+  | 0 => []
+  | k + 1 => [syncBeforeDt force, .setDtLast, .api .step] ++ lastStepBlock force k
+
+/-- the end of `reb_simulation_integrate_raw`: synchronize, then (exact_finish_time) `dt :=
+    last_full_dt`; `restoreChanges` = that assignment changes `dt` (a shortened step was taken).
+    In the repaired source the assignment is preceded by a forced synchronize when it changes `dt`. -/
+def finalBlock (force exact restoreChanges : Bool) : List DtOp :=
+  [.api .synchronize] ++
+  (if exact && restoreChanges then (if force then [DtOp.forceSync, .restoreDt] else [.restoreDt]) else [])
+
+/-- `syncFirst`: the entry synchronises before the sign of `dt` changes (fix 8b9ebd4);
+    `force`: the synchronisations that precede an assignment to `dt` ignore keep_unsynchronized -/
+def integratePlan (n k : Nat) (exact reverse syncFirst force restoreChanges : Bool) : List DtOp :=
+  (if reverse then (if syncFirst then [syncBeforeDt force, .flipDt] else [.flipDt]) else []) ++
+  [.begin] ++ (List.replicate n (DtOp.api .step)) ++ lastStepBlock force k ++
+  finalBlock force exact restoreChanges
 
 /-- does every assignment to `dt` in the plan happen in a synchronised state?
-    (generic in the integrator: `stepF` / `syncF` are its flag transitions) -/
-def dtOk {F : Type} (stepF syncF : F → F) (isS : F → Bool) : List DtOp → F → Bool
+    (generic in the integrator: `stepF` / `syncF` / `forceF` are its flag transitions) -/
+def dtOk {F : Type} (stepF syncF forceF : F → F) (isS : F → Bool) : List DtOp → F → Bool
   | [], _ => true
-  | .api .step :: r, f => dtOk stepF syncF isS r (stepF f)
-  | .api .synchronize :: r, f => dtOk stepF syncF isS r (syncF f)
-  | .api _ :: r, f => dtOk stepF syncF isS r f
-  | .begin :: r, f => dtOk stepF syncF isS r f
-  | .flipDt :: r, f | .setDtLast :: r, f | .restoreDt :: r, f => isS f && dtOk stepF syncF isS r f
+  | .api .step :: r, f => dtOk stepF syncF forceF isS r (stepF f)
+  | .api .synchronize :: r, f => dtOk stepF syncF forceF isS r (syncF f)
+  | .api _ :: r, f => dtOk stepF syncF forceF isS r f
+  | .forceSync :: r, f => dtOk stepF syncF forceF isS r (forceF f)
+  | .begin :: r, f => dtOk stepF syncF forceF isS r f
+  | .flipDt :: r, f | .setDtLast :: r, f | .restoreDt :: r, f =>
+    isS f && dtOk stepF syncF forceF isS r f
 
 /-! ## denotation over uninterpreted primitives
 
@@ -571,6 +643,7 @@ variable {T PJ X V A : Type}
 
 def denote (S : Sem T PJ X V A) : Prim → St PJ X V A → St PJ X V A
   | .init, s | .warn, s | .advT _, s | .sabaInit _, s => s
+  | .varComDrift _, s | .varToInertialPos, s | .varToInertialPosvel, s | .rescaleVar, s => s
   | .posJacobiAll, s => { s with pos := S.posJ s.pj }
   | .jacAccAll, s => { s with pj := S.jacAcc s.acc s.pj }
   | .toInertialAll, s => { s with pos := S.toIpos s.pj, vel := S.toIvel s.pj }
@@ -628,6 +701,7 @@ def agree (L : Comps) (s s' : St PJ X V A) : Prop :=
 /-- if two states agree on `L` before primitive `p`, they agree on `transfer p L` after -/
 def transfer : Prim → Comps → Comps
   | .init, L | .warn, L | .advT _, L | .sabaInit _, L => L
+  | .varComDrift _, L | .varToInertialPos, L | .varToInertialPosvel, L | .rescaleVar, L => L
   | .fromInertial, L => { L with pj := L.pos && L.vel && L.pj }
   | .toInertial, L | .toInertialAll, L => { L with pos := L.pj, vel := L.pj }
   | .posJacobi, L | .posBary, L | .posJacobiAll, L => { L with pos := L.pj }
